@@ -21,7 +21,8 @@ import (
 func init() { props["C02"] = runC02 }
 
 type c02Case struct {
-	Kind    string `json:"kind"` // seq | par
+	Rows    int    `json:"rows,omitempty"` // stream cases: about this many chunks, hashing of a few held back
+	Kind    string `json:"kind"` // seq | par | stream | trace
 	BlobHex string `json:"blob_hex"`
 	Min     uint64 `json:"min"`
 	Avg     uint64 `json:"avg"`
@@ -416,6 +417,14 @@ func runC02(a vh.Args, o *vh.Oracle, r *vh.Result) error {
 			}
 			return c02FlagsOne(a, o, r, &fc)
 		}
+		if c.Kind == "stream" {
+			for i := 0; i < 5; i++ {
+				if err := c02StreamCheck(r, vh.UnHex(c.BlobHex), c.Min, c.Avg, c.Max, c.N, c.Rows); err != nil {
+					return err
+				}
+			}
+			return nil
+		}
 		if c.Kind == "par" {
 			return c02Par(a, o, r, &c, 300)
 		}
@@ -516,6 +525,15 @@ func runC02(a vh.Args, o *vh.Oracle, r *vh.Result) error {
 			return err
 		}
 	}
+	manyRows := []int{1100, 2200, 4300}
+	if a.Tier == "thorough" {
+		manyRows = append(manyRows, 8500, 17000, 33500, 66500, 70000)
+	}
+	for _, rows := range manyRows {
+		if err := c02StreamRows(a, r, rng, rows); err != nil {
+			return err
+		}
+	}
 	ntr := 70
 	if a.Tier == "thorough" {
 		ntr = 1500
@@ -530,11 +548,19 @@ func runC02(a vh.Args, o *vh.Oracle, r *vh.Result) error {
 // the index must still record the digest of the chunk's own bytes.
 type slowDigest struct {
 	desync.SHA512256
-	n *int64
+	n    *int64
+	hold map[int64]bool // hash calls (by number) that take very long: the feeder runs thousands of rows ahead
 }
 
 func (h slowDigest) Sum(b []byte) [32]byte {
-	if atomic.AddInt64(h.n, 1)%3 != 0 {
+	k := atomic.AddInt64(h.n, 1)
+	if h.hold != nil {
+		if h.hold[k] {
+			time.Sleep(25 * time.Millisecond)
+		}
+		return h.SHA512256.Sum(b)
+	}
+	if k%3 != 0 {
 		time.Sleep(150 * time.Microsecond)
 	}
 	runtime.Gosched()
@@ -551,25 +577,55 @@ func (discardStore) String() string                                     { return
 
 // c02Stream: ChunkStream (single chunker feeding n hashing workers) on inputs larger than the
 // chunker's 10*max buffer: the index must carry, for every row, the digest of blob[start:start+size].
-func c02Stream(a vh.Args, r *vh.Result, rng *vh.Rand) error {
+func c02Stream(a vh.Args, r *vh.Result, rng *vh.Rand) error { return c02StreamRows(a, r, rng, 0) }
+
+// c02StreamRows with rows > 0: a stream of about that many chunks (small chunk sizes) where the
+// hashing of a few early and middle chunks is held back while the feeder records thousands of
+// further rows: whatever container the results are collected in grows many times meanwhile.
+func c02StreamRows(a vh.Args, r *vh.Result, rng *vh.Rand, rows int) error {
 	mn, av, mx := c02Triple(rng)
 	size := int(mx)*(10+rng.Intn(25)) + rng.Intn(int(mx))
+	if rows > 0 {
+		mn = uint64(48 + rng.Intn(16))
+		av = mn + uint64(8+rng.Intn(24))
+		mx = av + uint64(16+rng.Intn(64))
+		size = rows * int(mn+av) / 2 * 11 / 10
+	}
 	blob := rng.Bytes(size)
-	if rng.Chance(1, 3) {
+	if rng.Chance(1, 3) && rows == 0 {
 		for i := rng.Intn(size); i < size; i++ {
 			blob[i] = 0
 		}
 	}
 	n := 1 + rng.Intn(4)
+	if rows > 0 {
+		n = 2 + rng.Intn(3)
+	}
+	return c02StreamCheck(r, blob, mn, av, mx, n, rows)
+}
+
+// c02StreamCheck runs ChunkStream over blob and judges the index (also the replay entry point).
+func c02StreamCheck(r *vh.Result, blob []byte, mn, av, mx uint64, n, rows int) error {
+	size := len(blob)
 	var cnt int64
 	desync.Digest = slowDigest{n: &cnt}
+	if rows > 0 {
+		hold := map[int64]bool{1: true, 2: true}
+		for _, k := range []int{rows / 64, rows / 16, rows / 4, rows / 2, 1000, 1020, 2040, 4090, 65530} {
+			if k > 2 && k < rows {
+				hold[int64(k)] = true
+			}
+		}
+		desync.Digest = slowDigest{n: &cnt, hold: hold}
+		r.Dist("stream:many-rows:" + bucket(rows))
+	}
 	defer func() { desync.Digest = desync.SHA512256{} }()
 	c, err := desync.NewChunker(&fragReader{data: append([]byte{}, blob...), frags: nil}, mn, av, mx)
 	if err != nil {
 		return err
 	}
 	idx, err := desync.ChunkStream(context.Background(), c, discardStore{}, n)
-	cs := &c02Case{Kind: "stream", BlobHex: vh.Hex(blob), Min: mn, Avg: av, Max: mx, N: n, Shape: "stream"}
+	cs := &c02Case{Kind: "stream", BlobHex: vh.Hex(blob), Min: mn, Avg: av, Max: mx, N: n, Shape: "stream", Rows: rows}
 	r.Count(fmt.Sprintf("stream|%d|%d|%d|%d|%d", mn, av, mx, n, size), true)
 	r.Dist("stream:n:" + bucket(n))
 	if err != nil {
